@@ -493,13 +493,34 @@ func (y *c08Run) stepHookWithdrawal() {
 	r, e2 := y.r, y.sc.Env
 	u := e2.User(uint64(1 + r.Intn(5)))
 	di := r.Intn(len(y.bases))
-	amt := big.NewInt(int64(10 + r.Intn(100000)))
-	part := new(big.Int).Add(big.NewInt(1), new(big.Int).Rsh(amt, 1))
+	amt := big.NewInt(int64(40 + r.Intn(100000)))
+	quarter := new(big.Int).Rsh(amt, 2) // >= 10: the credited amount covers every shape below
 	to := y.e1.User(uint64(1 + r.Intn(7))).Str
 	y.sc.register(u.Str)
-	msgs := []HookSend{{Withdraw: true, ToL1: to, Denom: y.l2d[di], Amt: part}}
-	if r.Chance(35) { // a bank send of more than the signer holds: the hook fails after the withdrawal ran
-		msgs = append(msgs, HookSend{To: uint64(1 + r.Intn(5)), Denom: y.sc.Native, Amt: pow2(100)})
+	wd := func(a *big.Int) HookSend {
+		return HookSend{Withdraw: true, ToL1: to, Denom: y.l2d[di], Amt: new(big.Int).Set(a)}
+	}
+	snd := func(a int64) HookSend { // a bank send of the deposited denom to another user: succeeds
+		return HookSend{To: uint64(1 + r.Intn(5)), Denom: y.l2d[di], Amt: big.NewInt(a)}
+	}
+	var msgs []HookSend
+	nW, fails := 1, false
+	switch r.Intn(6) {
+	case 0: // the withdrawal alone
+		msgs = []HookSend{wd(new(big.Int).Add(quarter, quarter))}
+	case 1: // a bank send of more than the signer holds: the hook fails AFTER the withdrawal ran
+		msgs = []HookSend{wd(quarter), {To: uint64(1 + r.Intn(5)), Denom: y.sc.Native, Amt: pow2(100)}}
+		fails = true
+	case 2: // successful multi-message hooks: the withdrawal is not the last message
+		msgs = []HookSend{wd(quarter), snd(2)}
+	case 3:
+		msgs = []HookSend{snd(1), wd(quarter), snd(3)}
+	case 4:
+		msgs = []HookSend{wd(quarter), wd(big.NewInt(5)), snd(1)}
+		nW = 2
+	default:
+		msgs = []HookSend{snd(2), wd(big.NewInt(3)), wd(quarter)}
+		nW = 2
 	}
 	hook := e2.MakeHookTx(u.ID, e2.AccSeq(u.ID), true, msgs)
 	data := hook.Raw
@@ -507,8 +528,17 @@ func (y *c08Run) stepHookWithdrawal() {
 	if ev, ok := y.deposit(y.l1Sender(), u.Str, y.bases[di], amt, data); ok {
 		y.events = append(y.events, ev)
 		y.check("L1 deposit with a withdrawing hook")
+		before := y.relayed
 		ws := y.stepRelay(len(y.events) - 1)
-		y.rep.Hist(fmt.Sprintf("hook-withdrawal-events:%d", len(ws)))
+		y.rep.Hist(fmt.Sprintf("hook-msgs:%d-withdrawals:%d-fails:%v-events:%d", len(msgs), nW, fails, len(ws)))
+		want := nW
+		if fails {
+			want = 1 // only the refund of the deposit
+		}
+		if y.relayed == before+1 && len(ws) != want {
+			y.viol(len(y.sc.Case.Ops)-1, "C08:hook-withdrawal-events", fmt.Sprintf("a deposit whose hook tx has %d messages (%d withdrawals, hook fails: %v) emitted %d initiate_token_withdrawal events, %d expected",
+				len(msgs), nW, fails, len(ws), want))
+		}
 	}
 }
 
